@@ -43,6 +43,7 @@ class Unmodelled(BaseException):
 
 
 CUR = None  # current Ctx
+MERGE = [True]  # False: max/min/abs of symbolic numbers fork instead of building If-terms
 
 
 def cur():
@@ -75,6 +76,9 @@ class Ctx:
         self.forks = 0
         self.notes = []
         self.stop_at_label = None
+        self.cache = None
+        self.cached = 0
+        self.slow = {}
 
     # -- solver plumbing
     def _check(self, *assump):
@@ -161,6 +165,18 @@ def _is_inf(o):
     return isinstance(o, float) and math.isinf(o)
 
 
+def nice_fraction(x):
+    """floats are modelled as reals: a float within 1e-13 (relative) of a rational with denominator
+    <= 10^9 stands for that rational (0.45 is 9/20, 1e-8 is 1/10^8); otherwise its exact binary value"""
+    f = Fraction(x)
+    if f.denominator <= 10**9:
+        return f
+    g = f.limit_denominator(10**9)
+    if abs(g - f) <= Fraction(1, 10**13) * max(1, abs(f)):
+        return g
+    return f
+
+
 def toz(x):
     """python/symbolic number -> z3 Real term (NotImplemented if not a number)"""
     if isinstance(x, SymReal):
@@ -178,7 +194,7 @@ def toz(x):
     if isinstance(x, float):
         if math.isinf(x) or math.isnan(x):
             raise Unmodelled("non-finite float in symbolic arithmetic")
-        return z3.RealVal(str(Fraction(x)))
+        return z3.RealVal(str(nice_fraction(x)))
     if isinstance(x, _NPNUM):
         return toz(x.item())
     return NotImplemented
@@ -387,6 +403,8 @@ class SymReal:
         return self
 
     def __abs__(self):
+        if not MERGE[0]:
+            return self if self >= 0 else -self
         return SymReal(z3.If(self.z >= 0, self.z, -self.z))
 
     # ---- comparisons
@@ -761,6 +779,8 @@ def smax2(a, b):
         return b if a < 0 else a
     if _is_inf(b):
         return a if b < 0 else b
+    if not MERGE[0]:
+        return a if a >= b else b
     za, zb = toz(a), toz(b)
     return _mk(z3.simplify(z3.If(za >= zb, za, zb)))
 
@@ -772,6 +792,8 @@ def smin2(a, b):
         return b if a > 0 else a
     if _is_inf(b):
         return a if b > 0 else b
+    if not MERGE[0]:
+        return a if a <= b else b
     za, zb = toz(a), toz(b)
     return _mk(z3.simplify(z3.If(za <= zb, za, zb)))
 
